@@ -291,6 +291,9 @@ def run(chk: core.Check) -> None:
                 continue
             if cname in ("Cell(v)", "VarSet"):
                 reqs.append((f"tv branch {type_code(v)}", f"ok {vt or 'none'}", case))
+            if cname == "Cell(v)" and type(v) is int:
+                # the lexical form written for an int and what int() reads from it
+                reqs.append((f"tv int {v}", f"ok {core.enc_str(attrs.get('office:value', ''))} {int(attrs.get('office:value', '0'))}", case))
 
     # --- user-defined metadata + save / reopen -------------------------------------------------------
     doc = Document("text")
